@@ -731,3 +731,159 @@ func ruleC09Bind(c *Ctx) {
 		}
 	}
 }
+
+const textC09Replay = "R-C09-replay-unconditional: in the function through which EXEC replays the queued commands, whether the handler runs depends only on the command (handler table, test hook and its result) — no branch that can skip the handler reads state that another goroutine may change meanwhile (mutex- or atomic-guarded fields such as a connection's close flag): otherwise a transaction is cut short in the middle and the commands already run stay applied"
+
+// allowed shared reads in front of the handler call, with the reason
+var replayAllowed = map[string]string{
+	"dataStoreSet.phook": "the test hook installed by the embedding test; it replaces the handler, it does not drop the command",
+}
+
+func ruleC09Replay(c *Ctx) {
+	c.S.Rule("R-C09-replay-unconditional", textC09Replay, 2)
+	gt := c.M.Guards()
+	var D *ssa.Function
+	var H *ssa.Call
+	for _, fn := range c.SrcFuncs() {
+		for _, in := range instrsOf(fn) {
+			call, ok := in.(*ssa.Call)
+			if !ok || call.Call.IsInvoke() || call.Call.StaticCallee() != nil {
+				continue
+			}
+			if _, isB := call.Call.Value.(*ssa.Builtin); isB {
+				continue
+			}
+			if n, ok := call.Call.Value.Type().(*types.Named); ok && n.Obj().Name() == "cmdHandler" {
+				D, H = fn, call
+			}
+		}
+	}
+	if D == nil {
+		c.S.Undecided("R-C09-replay-unconditional", "dispatch-site", "-", "no call through a cmdHandler value found")
+		return
+	}
+	shared := func(f *types.Var) (string, bool) {
+		if f == nil {
+			return "", false
+		}
+		g, ok := gt.byField[f]
+		if !ok || (g.mode != gLocked && g.mode != gAtomic) {
+			return "", false
+		}
+		name := c.ownerName(f) + "." + f.Name()
+		if _, ok := replayAllowed[name]; ok {
+			return "", false
+		}
+		return name, true
+	}
+	// does function g (transitively, static and interface callees) read shared mutable state?
+	memo := map[*ssa.Function]string{}
+	var readsShared func(g *ssa.Function, depth int) string
+	readsShared = func(g *ssa.Function, depth int) string {
+		if r, ok := memo[g]; ok {
+			return r
+		}
+		memo[g] = ""
+		if depth > 6 || !c.InPkg(g) {
+			return ""
+		}
+		for _, a := range c.Accesses(g) {
+			if a.Write {
+				continue
+			}
+			if name, ok := shared(a.Field); ok {
+				memo[g] = name + " (read in " + fnName(g) + ")"
+				return memo[g]
+			}
+		}
+		for _, in := range instrsOf(g) {
+			if call, ok := in.(ssa.CallInstruction); ok {
+				if _, isGo := in.(*ssa.Go); isGo {
+					continue
+				}
+				for _, h := range c.Callees(call) {
+					if r := readsShared(h, depth+1); r != "" {
+						memo[g] = r
+						return r
+					}
+				}
+			}
+		}
+		return ""
+	}
+	var slice func(v ssa.Value, seen map[ssa.Value]bool) string
+	slice = func(v ssa.Value, seen map[ssa.Value]bool) string {
+		if v == nil || seen[v] {
+			return ""
+		}
+		seen[v] = true
+		switch x := v.(type) {
+		case *ssa.UnOp:
+			if fa, ok := x.X.(*ssa.FieldAddr); ok {
+				if name, ok := shared(fieldOf(fa)); ok {
+					return name
+				}
+			}
+			return slice(x.X, seen)
+		case *ssa.BinOp:
+			if r := slice(x.X, seen); r != "" {
+				return r
+			}
+			return slice(x.Y, seen)
+		case *ssa.Phi:
+			for _, e := range x.Edges {
+				if r := slice(e, seen); r != "" {
+					return r
+				}
+			}
+		case *ssa.Extract:
+			return slice(x.Tuple, seen)
+		case *ssa.Call:
+			if x == H {
+				return "" // the handler's own result
+			}
+			for _, g := range c.Callees(x) {
+				if r := readsShared(g, 0); r != "" {
+					return r
+				}
+			}
+			for _, a := range x.Call.Args {
+				if r := slice(a, seen); r != "" {
+					return r
+				}
+			}
+		case *ssa.TypeAssert:
+			return slice(x.X, seen)
+		case *ssa.Convert:
+			return slice(x.X, seen)
+		case *ssa.ChangeType:
+			return slice(x.X, seen)
+		case *ssa.Lookup:
+			return slice(x.X, seen)
+		case *ssa.FieldAddr:
+			if name, ok := shared(fieldOf(x)); ok {
+				return name
+			}
+		}
+		return ""
+	}
+	reach := func(from *ssa.BasicBlock) bool { return from == H.Block() || plainReachAvoid(from, H.Block(), nil) }
+	n := 0
+	for _, b := range D.Blocks {
+		ifi, ok := b.Instrs[len(b.Instrs)-1].(*ssa.If)
+		if !ok || !reach(b) {
+			continue
+		}
+		r0, r1 := reach(b.Succs[0]), reach(b.Succs[1])
+		if r0 == r1 {
+			continue
+		}
+		n++
+		key := fmt.Sprintf("%s:skip-branch#%d", fnName(D), n)
+		if r := slice(ifi.Cond, map[ssa.Value]bool{}); r != "" {
+			c.S.Bad("R-C09-replay-unconditional", key, c.Pos(c.InstrPos(ifi)), fmt.Sprintf("%s can skip the handler depending on %s, which another goroutine can change while EXEC replays the queue: the rest of a running transaction is dropped", fnName(D), r))
+		} else {
+			c.S.OK("R-C09-replay-unconditional", key, c.Pos(c.InstrPos(ifi)), "the branch depends on the command, the handler table or the test hook only")
+		}
+	}
+}
